@@ -57,7 +57,9 @@ fn main() {
         eprintln!("usage: pwcheck <ID> <quick|thorough|replay <file>>");
         std::process::exit(2);
     }
-    silence_panics();
+    if std::env::var("PW_SHOW_PANICS").is_err() {
+        silence_panics();
+    }
     if let Err(e) = exact::self_test() {
         machinery(&format!("exact arithmetic self-test failed: {e}"));
     }
